@@ -101,6 +101,17 @@ func genLine(tp *kernel.Tape) string {
 	case 6:
 		// stray CR in the middle
 		b.WriteString(pick(tp, addrPool) + " ho\rst")
+	case 7:
+		if tp.Bool(1, 6) {
+			// a long well-formed line (well below bufio.MaxScanTokenSize)
+			b.WriteString(pick(tp, addrPool))
+			for i := tp.Range(250, 900); i > 0; i-- {
+				b.WriteString(" name" + kernel.Itoa(i) + ".example.org")
+			}
+
+			break
+		}
+		b.WriteString(pick(tp, addrPool) + " " + pick(tp, namePool))
 	default:
 		b.WriteString(pick(tp, addrPool))
 		for n := tp.Range(1, 3); n > 0; n-- {
@@ -461,7 +472,7 @@ func (m *storageModel) add(addr netip.Addr, names []string) {
 
 var (
 	stAddrs = []string{"1.2.3.4", "::1", "fe80::1%eth0", "fe80::1%eth1", "::ffff:1.2.3.4", "fe80::1"}
-	stNames = []string{"host", "Host", "HOST", "a.b", "A.B", "x", "X", "long.example.org"}
+	stNames = []string{"host", "Host", "HOST", "a.b", "A.B", "x", "X", "long.example.org", "почта.lan", "ПОЧТА.lan", "äöü.lan", "ÄÖÜ.lan"}
 )
 
 func runStorage(c *ctx) {
@@ -484,7 +495,11 @@ func runStorage(c *ctx) {
 	for i := 0; i < nOps; i++ {
 		addr := netip.MustParseAddr(stAddrs[tp.Choose(nAddrs)])
 		var names []string
-		for n := tp.Choose(4); n > 0; n-- {
+		nn := tp.Choose(4)
+		if nn == 0 && tp.Bool(1, 2) {
+			names = []string{} // empty but not nil, as UnmarshalText leaves it
+		}
+		for ; nn > 0; nn-- {
 			names = append(names, stNames[tp.Choose(nNames)])
 		}
 		rec := &hostsfile.Record{Addr: addr, Names: names, Source: "src"}
